@@ -2,7 +2,7 @@
     Only restatements; proofs live in Enc/*Proofs.v.  Models: Enc/BitpackModel.v (src/core/bitpack.c),
     Enc/RleModel.v (src/encoding/rle.c).  The other encodings are restated from the enc2 engine below. *)
 From Coq Require Import NArith List.
-From Carquet Require Import Base.Res Enc.BitpackSpec Enc.BitpackModel Enc.BitpackProofs
+From Carquet Require Import Base.Res Enc.BitpackSpec Enc.BitpackModel Enc.BitpackProofs Enc.BitpackNProofs
   Enc.RleSpec Enc.RleModel Enc.RleDecProofs Enc.RleProofs.
 Import ListNotations.
 Local Open Scope N_scope.
@@ -23,6 +23,15 @@ Print Assumptions bitpack8_roundtrip_exact.
 Theorem bitpack8_size : forall w vs, length (pack8 w vs) = w.
 Proof. exact pack8_length. Qed.
 Print Assumptions bitpack8_size.
+
+(** Raw bit packing of any number of values (carquet_bitpack_32 / carquet_bitunpack_32, widths 1..32;
+    at width 0 nothing is written and zeros come back): the unpacker returns the values and reports
+    exactly the number of bytes the packer wrote. *)
+Theorem bitpack32_any_count_roundtrip : forall w vs, (1 <= w <= 32)%nat ->
+  bitunpack_32 w (bitpack_32 w vs) (length vs)
+  = Ok (map (fun v => v mod 2 ^ N.of_nat w) vs, length (bitpack_32 w vs)).
+Proof. exact bitpack32_roundtrip. Qed.
+Print Assumptions bitpack32_any_count_roundtrip.
 
 (** RLE / bit-packed hybrid at every bit width 0..32: for every value sequence (any length, any run
     structure) whose values fit the width, decode_all (encode_all vs) asked for |vs| values returns vs.
